@@ -132,7 +132,9 @@ Definition canon_integer (s : ustr) : cres :=
   end.
 
 Definition canon (datatype : ustr) (s : ustr) : cres :=
-  if ueqb datatype Tables.c_xsd_boolean then COk (lower s)
+  if ueqb datatype Tables.c_xsd_boolean then
+    (* str.lower(): modelled on ASCII; other cased letters (e.g. U+0130) are left to the oracle *)
+    (if forallb (fun c => c <? 128) s then COk (lower s) else CUnmodelled)
   else if ueqb datatype Tables.c_xsd_datetime then COk (replace1 32 [84] s)
   else if ueqb datatype Tables.c_xsd_integer then canon_integer s
   else COk s.
